@@ -295,7 +295,7 @@ def setup_kind(kind, rules, V):
                 if isinstance(r, str):
                     return r
                 if kind.startswith("boollm"):
-                    return ("val", tuple(sorted(r.items())))  # exact key set for the mask
+                    return ("val", tuple(sorted(r.items(), key=repr)))  # exact key set for the mask
                 return norm(dict(r))
             if o == "lm":
                 return guarded(lambda: norm(obj(c + (EOS,))))
